@@ -54,6 +54,20 @@ AtomicMove<SlotType, BUFFER_SIZE> {
         // if !BUFFER_SIZE.is_power_of_two() {
         //     panic!("FullSyncMeta: BUFFER_SIZE must be a power of 2, but {BUFFER_SIZE} was provided.");
         // }
+        #[cfg(feature = "verif")]
+        #[allow(unreachable_code)]
+        {
+            // sequence counters start wherever the simulator says (0 if none is installed)
+            let origin = crate::verif::sequence_origin();
+            return Self {
+                head:                 CachePadded::new(AtomicU32::new(origin)),
+                tail:                 CachePadded::new(AtomicU32::new(origin)),
+                dequeuer_head:        CachePadded::new(AtomicU32::new(origin)),
+                enqueuer_tail:        CachePadded::new(AtomicU32::new(origin)),
+                buffer:               UnsafeCell::new(Box::pin([0; BUFFER_SIZE].map(|_| ManuallyDrop::new(slot_initializer())))),
+            }
+        }
+        #[allow(unreachable_code)]
         Self {
             head:                 CachePadded::new(AtomicU32::new(0)),
             tail:                 CachePadded::new(AtomicU32::new(0)),
@@ -193,6 +207,7 @@ AtomicMove<SlotType, BUFFER_SIZE> {
             } else {
                 // queue is full: reestablish the correct `enqueuer_tail` (receding it to its original value)
                 if self.try_unleak_slot_internal(slot_id) {
+                    #[cfg(feature = "verif")] crate::verif::probe("atomic_move.leak.receded_on_full");
                     // report the queue is full (allowing a retry) if the method says we recovered from the condition
                     if report_full_fn() {
                         slot_id = self.enqueuer_tail.fetch_add(1, Relaxed);
@@ -244,6 +259,7 @@ AtomicMove<SlotType, BUFFER_SIZE> {
                 Err(reloaded_tail) => {
                     if reloaded_tail / BUFFER_SIZE as u32 > slot_id / BUFFER_SIZE as u32 {
                         // the ring buffer cycled over -- adjust `slot_id` accordingly
+                        #[cfg(feature = "verif")] crate::verif::probe("atomic_move.publish_index.lap_adjusted");
                         slot_id = slot_index + ( (reloaded_tail / BUFFER_SIZE as u32) * BUFFER_SIZE as u32 );
                     } else {
                         relaxed_wait();
@@ -280,6 +296,7 @@ AtomicMove<SlotType, BUFFER_SIZE> {
                 Err(reloaded_enqueuer_tail) => {
                     if (reloaded_enqueuer_tail-1) / BUFFER_SIZE as u32 > slot_id / BUFFER_SIZE as u32 {
                         // the ring buffer cycled over -- adjust `slot_id` accordingly
+                        #[cfg(feature = "verif")] crate::verif::probe("atomic_move.unleak_index.lap_adjusted");
                         slot_id = slot_index + ( ( (reloaded_enqueuer_tail-1) / BUFFER_SIZE as u32) * BUFFER_SIZE as u32 );
                     } else {
                         break false
@@ -312,6 +329,7 @@ AtomicMove<SlotType, BUFFER_SIZE> {
                 // queue is empty: reestablish the correct `dequeuer_head` (receding it to its original value)
                 match self.dequeuer_head.compare_exchange_weak(slot_id.overflowing_add(1).0, slot_id, Relaxed, Relaxed) {
                     Ok(_) => {
+                        #[cfg(feature = "verif")] crate::verif::probe("atomic_move.consume.receded_on_empty");
                         if !report_empty_fn() {
                             return None;
                         } else {
@@ -319,6 +337,7 @@ AtomicMove<SlotType, BUFFER_SIZE> {
                         }
                     },
                     Err(_reloaded_dequeuer_head) => {
+                        #[cfg(feature = "verif")] crate::verif::probe("atomic_move.consume.recede_failed");
                         relaxed_wait();
                     }
                 }
